@@ -58,12 +58,12 @@ def run(chk):
                'approximation quality and is NOT a contract: only a bounded numeric comparison is made (bounded_checks)')
     chk.assume('beam_direction passed to compute_transmission_map is a unit vector (the detector directions are normalised by the code)')
     mod = kit.load(MOD)
-    positive_interval(chk, mod)
-    infinite_cylinder(chk, mod)
-    slab(chk, mod)
-    beam_intersection(chk, mod)
-    center_volume(chk, mod)
-    quadrature(chk, mod)
+    chk.section('positive_interval', positive_interval, mod)
+    chk.section('infinite_cylinder', infinite_cylinder, mod)
+    chk.section('slab', slab, mod)
+    chk.section('beam_intersection', beam_intersection, mod)
+    chk.section('center_volume', center_volume, mod)
+    chk.section('quadrature', quadrature, mod)
     tables(chk)
     transmission_lemmas(chk)
     bounded_transmission(chk)
